@@ -47,7 +47,7 @@ AT_STATES = ['ERROR', 'IDLE', 'PARSE_PREFIX', 'PARSE_COMMAND_CHAR', 'UPDATE_COMM
              'AFTER_FLUSH_RESET', 'AFTER_FLUSH_OK', 'AFTER_FLUSH_FORMAT_READ_ARGS', 'AFTER_FLUSH_FORMAT_TEST_ARGS', 'PRINT_CMD']
 UN_STATES = ['IDLE', 'FORMAT_READ_ARGS', 'FORMAT_TEST_ARGS', 'READ_LOOP', 'TEST_LOOP', 'FLUSH_IO_WRITE_WAIT', 'FLUSH_IO_WRITE',
              'AFTER_FLUSH_RESET', 'AFTER_FLUSH_OK', 'AFTER_FLUSH_FORMAT_READ_ARGS', 'AFTER_FLUSH_FORMAT_TEST_ARGS']
-L1_PROPS = ['C01', 'C03', 'C06', 'C10', 'C11', 'C12', 'C14', 'C15', 'C16', 'C18', 'C20']
+L1_PROPS = ['C01', 'C02', 'C03', 'C06', 'C09', 'C10', 'C11', 'C12', 'C14', 'C15', 'C16', 'C18', 'C20']
 LEAF_REPLACE = ['parse_int_decimal', 'parse_uint_decimal', 'parse_num_hexadecimal', 'parse_buffer_hexadecimal', 'parse_buffer_string',
                 'validate_int_range', 'validate_uint_range']
 SHAPES = {
